@@ -25,6 +25,7 @@ fn dictionary() -> Vec<String> {
     v.push("(use-modules (lipe))".into());
     v.push("%lf3:print:2".into());
     v.push("#t".into());
+    v.extend(crate::policy::harvest_fragments());
     v.sort();
     v.dedup();
     v
